@@ -1156,6 +1156,29 @@ func main() {
 			d2.signers = []byte{0, 1, 2, 3, 4, 5, 6, 7, 255}
 			doCheck("corpus", c, tw, tw, tw, 12, 8, nil, d2, nil)
 		}
+		// m and n exactly at / one off the required values, both rules, V0 and V1
+		for _, pv := range []byte{0, 1} {
+			for _, rule := range []uint32{maxU32, 0} { // DPOSNodeCrossChainHeight: old rule (CRAgreementCount) / new rule (NormalArbitratorsCount+1)
+				c := base
+				c.dposCC = rule
+				for _, dm := range []int{-1, 0, 1} {
+					for _, dn := range []int{-1, 0, 1} {
+						sc := validScript(tw, 8+dm, nil) // CRAgreementCount = 8, NormalArbitratorsCount+1 = 9
+						if rule == 0 {
+							sc = validScript(tw, 9+dm, nil)
+						}
+						sc.nb = byte(int(sc.nb) + dn)
+						t := &txd{pver: pv, refs: []byte{0x4b}, progs: []code{sc}}
+						if pv == 0 {
+							t.ph = []int{1}
+						} else {
+							t.oh = []int{1}
+						}
+						doCheck("corpus", c, tw, tw, tw, 12, 8, nil, t, nil)
+					}
+				}
+			}
+		}
 		// unknown payload version with and without cross-chain inputs around the freeze height
 		for _, h := range []uint32{49, 50, 99, 100} {
 			c := base
@@ -1167,7 +1190,7 @@ func main() {
 	}
 
 	// ---- generated single checks
-	for k := 0; k < run.N(1000, 60000); k++ {
+	for k := 0; k < run.N(1000, 20000); k++ {
 		r := rng.Fork()
 		c := genCfg(r)
 		if r.Chance(60) { // a deployment-like configuration so that the accept path is common
@@ -1495,10 +1518,10 @@ func main() {
 		v2rbObserved = p != nil
 		st.Extra["v2_has_rollback_processor"] = v2rbObserved
 	}
-	for k := 0; k < run.N(100, 5000); k++ {
+	for k := 0; k < run.N(100, 1500); k++ {
 		runHist("hist-free", rng.Fork(), false)
 	}
-	for k := 0; k < run.N(100, 5000); k++ {
+	for k := 0; k < run.N(100, 1500); k++ {
 		runHist("hist-blocks", rng.Fork(), true)
 	}
 
